@@ -378,15 +378,16 @@ def c13_obligations():
     return coord_obligations() + weights_obligations(MAXABS_THEOREMS)
 
 
-BLOCKRED_FUNCS = ["BlockReduce._block_coordinates"]
-BLOCKRED_THEOREMS = ["src_BlockReduce_block_coordinates_eq"]
+BLOCKRED_FUNCS = ["BlockReduce._block_coordinates", "BlockReduce.filter"]
+BLOCKRED_THEOREMS = ["src_BlockReduce_block_coordinates_eq", "src_BlockReduce_filter_unweighted_eq"]
 BLOCKRED_IMPORTS = ("From Verde Require Import Lib.QList Model.BlockReduce Proofs.BlockReduceProofs Proofs.PyLiteBridge "
                     "Proofs.PyLiteBlocks.")
-BLOCKRED_SPEC = ("BlockReduceSrc", os.path.join("verde", "blockreduce.py"), BLOCKRED_FUNCS, "pylite_blockreduce.v.tmpl",
-                 BLOCKRED_IMPORTS)
+BLOCKRED_SPEC = ("BlockReduceSrc", os.path.join("verde", "blockreduce.py"), BLOCKRED_FUNCS,
+                 ["pylite_blockreduce.v.tmpl", "pylite_blockreduce_filter.v.tmpl"], BLOCKRED_IMPORTS)
 
 
 def blockreduce_obligations():
-    """verde/blockreduce.py BlockReduce._block_coordinates against Model/BlockReduce.v block_coords (C09, C10)"""
+    """verde/blockreduce.py BlockReduce._block_coordinates against Model/BlockReduce.v block_coords (C09, C10) and
+    BlockReduce.filter without weights against block_coords / block_data (C09)"""
     tag, mod_, funcs, tmpl, imports = BLOCKRED_SPEC
     return tie(tag, mod_, funcs, tmpl, BLOCKRED_THEOREMS, imports)
